@@ -728,6 +728,15 @@ def _binop(op, x, y):
 
 
 def _elementwise(f, xa, ya, xarr, yarr, res_tag, pre_tag, cast_x=None):
+    try:
+        return _elementwise0(f, xa, ya, xarr, yarr, res_tag, pre_tag, cast_x)
+    except ZeroDivisionError as e:
+        if xarr or yarr:
+            raise core.NonFinite('division by zero inside an array operation (numpy returns inf/nan and warns)') from e
+        raise
+
+
+def _elementwise0(f, xa, ya, xarr, yarr, res_tag, pre_tag, cast_x=None):
     def cx(v):
         if pre_tag is not None:
             return cast(v, pre_tag)
